@@ -165,8 +165,14 @@ pub struct Cell {
     pub event: Event,
     pub second: Option<Event>,
     pub mode: Mode,
-    /// a `send_data` call of the subject is blocked on `sctp_max_buffered_amount` when the event fires
+    /// `send_data` calls of the subject are parked on `sctp_max_buffered_amount` when the event fires
     pub blocked: bool,
+    /// how many sender tasks are parked (0 in an old replay = 1)
+    #[serde(default)]
+    pub senders: u8,
+    /// over how many distinct data channels they are spread (0 in an old replay = 1)
+    #[serde(default)]
+    pub sender_channels: u8,
     /// the subject is the offerer
     pub subject_offerer: bool,
     /// data channels created by the offerer (WebRtc only)
@@ -194,6 +200,12 @@ impl Cell {
     fn coord(&self) -> String {
         format!("{}/{}/{}", self.phase.name(), self.event_name(), self.mode.name())
     }
+    fn n_senders(&self) -> usize {
+        if self.blocked { self.senders.clamp(1, 4) as usize } else { 0 }
+    }
+    fn n_sender_channels(&self) -> usize {
+        (self.sender_channels.clamp(1, 3) as usize).min(self.n_senders().max(1))
+    }
     fn sig(&self, clause: &str) -> String {
         format!("{}@{}", clause, self.coord())
     }
@@ -209,7 +221,10 @@ impl Cell {
 pub fn applicable(phase: Phase, event: Event, mode: Mode, blocked: bool) -> bool {
     match mode {
         Mode::WebRtc => {
-            if blocked && phase < Phase::ChannelsOpen {
+            if blocked
+                && (phase < Phase::ChannelsOpen
+                    || !matches!(event, Event::Close | Event::DropAll | Event::PeerClose | Event::Blackhole | Event::PeerAbort))
+            {
                 return false;
             }
             match event {
@@ -595,7 +610,7 @@ struct Node {
     chans: Arc<Mutex<Vec<Chan>>>,
     pump: Option<Pending>,
     wfc: Option<Pending>,
-    blocked_send: Option<Pending>,
+    blocked_sends: Vec<Pending>,
     media: Option<MediaKit>,
     transceivers: Vec<Arc<rustrtc::peer_connection::RtpTransceiver>>,
 }
@@ -661,7 +676,7 @@ impl Node {
             chans: Arc::new(Mutex::new(Vec::new())),
             pump: None,
             wfc: None,
-            blocked_send: None,
+            blocked_sends: Vec::new(),
             media: None,
             transceivers: Vec::new(),
         })
@@ -1089,9 +1104,10 @@ async fn fire_event(ev: Event, cell: &Cell, rig: &mut PairRig, subject: usize, o
             }
         }
         Event::DropAll => {
-            // release every handle the application holds: pending calls borrow the handle, so they go first
+            // release every handle the application holds: pending calls (parked senders included) borrow the
+            // handle, so they are cancelled first; what is checked then is that nothing of them stays behind
             let node = rig.node_mut(subject);
-            for p in [node.pump.take(), node.wfc.take(), node.blocked_send.take()].into_iter().flatten() {
+            for p in [node.pump.take(), node.wfc.take()].into_iter().flatten().chain(std::mem::take(&mut node.blocked_sends)) {
                 p.kill().await;
             }
             if let Some(m) = node.media.as_mut() {
@@ -1246,6 +1262,30 @@ fn pending_check(cell: &Cell, p: &Option<Pending>, clause: &str, t_ref: Instant,
     }
 }
 
+async fn wait_senders(ps: &[Pending], until: Instant) {
+    while ps.iter().any(|p| p.finished().is_none()) && Instant::now() < until {
+        tokio::time::sleep(Duration::from_millis(5)).await;
+    }
+}
+
+/// every parked send_data call must have returned (Ok or Err)
+fn senders_check(cell: &Cell, ps: &[Pending], t_ref: Instant, out: &mut Outcome) {
+    let hung: Vec<&str> = ps.iter().filter(|p| p.finished().is_none()).map(|p| p.name.as_str()).collect();
+    for p in ps {
+        if let Some((t, r)) = p.finished() {
+            out.notes.push(format!("{} -> {} ({} ms)", p.name, r.chars().take(50).collect::<String>(), t.saturating_duration_since(t_ref).as_millis()));
+        }
+    }
+    if !hung.is_empty() {
+        out.fail(
+            cell,
+            "send_data-blocked-hangs",
+            true,
+            format!("{} of {} parked send_data call(s) are still pending 2 s after the connection became terminal: {:?}", hung.len(), ps.len(), hung),
+        );
+    }
+}
+
 async fn wait_pending(p: &Option<Pending>, until: Instant) {
     if let Some(p) = p {
         while p.finished().is_none() && Instant::now() < until {
@@ -1269,6 +1309,10 @@ async fn after_calls(cell: &Cell, node: &Node, out: &mut Outcome, terminal: bool
             // the connection never became terminal (reported by its own clause): waiting is then legitimate
             continue;
         }
+        if name == "send_data" && matches!(r, CallRes::Hang) && node.blocked_sends.iter().any(|p| p.finished().is_none()) {
+            // a parked sender (reported by its own clause) still holds the channel's send lock
+            continue;
+        }
         match r {
             CallRes::Done(v, d) => out.notes.push(format!("after: {name} -> {} in {d:?}", match v { Ok(()) => "Ok".to_string(), Err(e) => format!("Err({})", e.chars().take(50).collect::<String>()) })),
             CallRes::Hang => out.fail(cell, clause, true, format!("{name}() issued after the connection became terminal (state {:?}) did not return within 2 s", node.state())),
@@ -1289,7 +1333,7 @@ async fn after_calls(cell: &Cell, node: &Node, out: &mut Outcome, terminal: bool
 
 /// drop everything the application holds of `node` and wait for its tasks and sockets to go away
 async fn release_node(cell: &Cell, mut node: Node, who: &str, out: &mut Outcome) {
-    for p in [node.pump.take(), node.wfc.take(), node.blocked_send.take()].into_iter().flatten() {
+    for p in [node.pump.take(), node.wfc.take()].into_iter().flatten().chain(std::mem::take(&mut node.blocked_sends)) {
         p.kill().await;
     }
     if let Some(m) = node.media.as_mut() {
@@ -1357,9 +1401,9 @@ async fn finish_subject(cell: &Cell, mut node: Node, t0: Instant, bound: Duratio
         if let Some(tt) = obs.t_term {
             let lim = tt + LOCAL_BOUND;
             wait_pending(&node.wfc, lim).await;
-            wait_pending(&node.blocked_send, lim).await;
+            wait_senders(&node.blocked_sends, lim).await;
             pending_check(cell, &node.wfc, "wait_for_connected-pending-hangs", tt, out);
-            pending_check(cell, &node.blocked_send, "send_data-blocked-hangs", tt, out);
+            senders_check(cell, &node.blocked_sends, tt, out);
             check_channels(cell, &node, tt, out, false).await;
         } else {
             terminal = false;
@@ -1399,14 +1443,14 @@ async fn finish_subject(cell: &Cell, mut node: Node, t0: Instant, bound: Duratio
         let lim = tc + LOCAL_BOUND;
         wait_pending(&node.pump, lim).await;
         wait_pending(&node.wfc, lim).await;
-        wait_pending(&node.blocked_send, lim).await;
+        wait_senders(&node.blocked_sends, lim).await;
         if SKIP_PC_RECV.load(Ordering::Relaxed) {
             out.skipped.push(SIG_PC_RECV);
         } else if node.pump.as_ref().map(|p| p.finished().is_none()).unwrap_or(false) {
             out.fail_global(SIG_PC_RECV, true, format!("recv() issued before the event is still pending 2 s after close() [{}]", cell.coord()));
         }
         pending_check(cell, &node.wfc, "wait_for_connected-pending-hangs", tc, out);
-        pending_check(cell, &node.blocked_send, "send_data-blocked-hangs", tc, out);
+        senders_check(cell, &node.blocked_sends, tc, out);
         check_channels(cell, &node, tc, out, true).await;
         if !detectable {
             after_calls(cell, &node, out, true).await;
@@ -1419,7 +1463,7 @@ async fn finish_subject(cell: &Cell, mut node: Node, t0: Instant, bound: Duratio
         // reclaim what we can so that the process does not accumulate zombies: nothing to call, the
         // runtime shutdown below is the only way
         out.labels.push("zombie-after-drop".into());
-        for p in [node.pump.take(), node.wfc.take(), node.blocked_send.take()].into_iter().flatten() {
+        for p in [node.pump.take(), node.wfc.take()].into_iter().flatten().chain(std::mem::take(&mut node.blocked_sends)) {
             p.kill().await;
         }
         let chans: Vec<Chan> = std::mem::take(&mut *node.chans.lock());
@@ -1457,7 +1501,7 @@ async fn run_pair_cell(cell: Cell) -> Outcome {
     // blocked sender: stall SCTP from the subject and send until a call stays pending
     if cell.blocked {
         rig.proxy.set(subject, Gate::DropApp);
-        if let Err(e) = block_sender(rig.node_mut(subject), &mut out).await {
+        if let Err(e) = block_senders(&cell, rig.node_mut(subject), &mut out).await {
             out.fail(&cell, "phase-not-reached", false, e);
             return out;
         }
@@ -1493,32 +1537,49 @@ async fn run_pair_cell(cell: Cell) -> Outcome {
     out
 }
 
-async fn block_sender(node: &mut Node, out: &mut Outcome) -> Result<(), String> {
-    let id = node.chans.lock().first().map(|c| c.id).unwrap_or(0);
-    let pc = node.pc();
+/// Park `cell.n_senders()` sender tasks, spread over `cell.n_sender_channels()` channels, in send_data.
+/// The caller has stalled SCTP from this endpoint, so nothing is acknowledged any more.
+async fn block_senders(cell: &Cell, node: &mut Node, out: &mut Outcome) -> Result<(), String> {
+    let ids: Vec<u16> = node.chans.lock().iter().filter(|c| c.count(DcEv::Open) > 0).map(|c| c.id).collect();
+    let want_ch = cell.n_sender_channels();
+    if ids.len() < want_ch {
+        return Err(format!("{} open channel(s) but {} wanted for the senders", ids.len(), want_ch));
+    }
+    let n = cell.n_senders();
     let sent = Arc::new(AtomicU64::new(0));
-    let s2 = sent.clone();
-    node.blocked_send = Some(spawn_pending(&node.h, "send_data(blocked)", async move {
-        let payload = vec![7u8; 8192];
-        loop {
-            match pc.send_data(id, &payload).await {
-                Ok(()) => {
-                    s2.fetch_add(1, Ordering::SeqCst);
+    let inside = Arc::new(AtomicU64::new(0));
+    for k in 0..n {
+        let id = ids[k % want_ch];
+        let pc = node.pc();
+        let s2 = sent.clone();
+        let in2 = inside.clone();
+        // different message sizes so that the senders do not move in lock step
+        let payload = vec![7u8; 4096 + 2048 * (k % 3)];
+        let p = spawn_pending(&node.h, &format!("send_data#{k}(ch {id})"), async move {
+            loop {
+                in2.fetch_add(1, Ordering::SeqCst);
+                let r = pc.send_data(id, &payload).await;
+                in2.fetch_sub(1, Ordering::SeqCst);
+                match r {
+                    Ok(()) => {
+                        s2.fetch_add(1, Ordering::SeqCst);
+                    }
+                    Err(e) => return format!("Err({e}) after {} sends in total", s2.load(Ordering::SeqCst)),
                 }
-                Err(e) => return format!("Err({e}) after {} sends", s2.load(Ordering::SeqCst)),
             }
-        }
-    }));
-    // blocked = the counter stops moving
+        });
+        node.blocked_sends.push(p);
+    }
+    // parked = nobody completes a send any more and every sender is inside a call
     let mut last = u64::MAX;
     let mut stable = 0;
     let t = Instant::now();
-    while t.elapsed() < Duration::from_secs(4) {
+    while t.elapsed() < Duration::from_secs(5) {
         tokio::time::sleep(Duration::from_millis(50)).await;
         let v = sent.load(Ordering::SeqCst);
-        if v == last {
+        if v == last && inside.load(Ordering::SeqCst) == n as u64 {
             stable += 1;
-            if stable >= 4 {
+            if stable >= 5 {
                 break;
             }
         } else {
@@ -1526,15 +1587,16 @@ async fn block_sender(node: &mut Node, out: &mut Outcome) -> Result<(), String> 
             last = v;
         }
     }
-    if stable < 4 || node.blocked_send.as_ref().map(|p| p.finished().is_some()).unwrap_or(true) {
-        return Err(format!(
-            "sender never blocked (sent {}, result {:?})",
-            sent.load(Ordering::SeqCst),
-            node.blocked_send.as_ref().and_then(|p| p.finished()).map(|x| x.1)
-        ));
+    let done: Vec<String> = node.blocked_sends.iter().filter_map(|p| p.finished().map(|x| format!("{}: {}", p.name, x.1))).collect();
+    if stable < 5 || !done.is_empty() {
+        return Err(format!("senders never all parked (sent {}, inside {}, returned {:?})", sent.load(Ordering::SeqCst), inside.load(Ordering::SeqCst), done));
     }
-    out.notes.push(format!("sender blocked after {} sends", sent.load(Ordering::SeqCst)));
-    out.labels.push("blocked-sender".into());
+    out.notes.push(format!("{} sender(s) on {} channel(s) parked after {} sends", n, want_ch, sent.load(Ordering::SeqCst)));
+    out.labels.push(format!("parked-senders:{n}"));
+    out.labels.push(format!("parked-channels:{want_ch}"));
+    if n >= 2 && want_ch >= 2 {
+        out.labels.push("parked:multi-channel".into());
+    }
     Ok(())
 }
 
@@ -1545,7 +1607,7 @@ async fn fire_race(e1: Event, e2: Event, cell: &Cell, rig: &mut PairRig, subject
     let mut own_clone: Option<PeerConnection> = None;
     if e1 == Event::DropAll || e2 == Event::DropAll {
         let node = rig.node_mut(subject);
-        for p in [node.pump.take(), node.wfc.take(), node.blocked_send.take()].into_iter().flatten() {
+        for p in [node.pump.take(), node.wfc.take()].into_iter().flatten().chain(std::mem::take(&mut node.blocked_sends)) {
             p.kill().await;
         }
         if let Some(m) = node.media.as_mut() {
@@ -1910,7 +1972,7 @@ fn subject_addr_and_fp(offer: &SessionDescription) -> Result<(SocketAddr, Option
 
 async fn run_low_cell(cell: Cell) -> Outcome {
     let mut out = Outcome::default();
-    let mut s = match Node::new(0, Mode::WebRtc, false, None).await {
+    let mut s = match Node::new(0, Mode::WebRtc, cell.blocked, None).await {
         Ok(n) => n,
         Err(e) => {
             out.fail(&cell, "phase-not-reached", false, e);
@@ -1978,6 +2040,16 @@ async fn run_low_cell(cell: Cell) -> Outcome {
     };
     out.reached = true;
     out.notes.push(format!("tasks at phase: {} sockets {}", s.alive_tasks(), sockets_on(s.ip).len()));
+    if cell.blocked {
+        // the peer's SCTP goes deaf: nothing the subject sends is acknowledged any more
+        low.hold_sctp.store(true, Ordering::SeqCst);
+        if let Err(e) = block_senders(&cell, &mut s, &mut out).await {
+            out.fail(&cell, "phase-not-reached", false, e);
+            drop(low);
+            release_node(&cell, s, "", &mut Outcome::default()).await;
+            return out;
+        }
+    }
     tokio::time::sleep(Duration::from_millis(cell.fire_delay_ms as u64)).await;
 
     // ---- fire: the remote SCTP event, possibly racing with a local one
@@ -2039,7 +2111,7 @@ async fn run_low_cell(cell: Cell) -> Outcome {
                     }
                 }
                 Event::DropAll => {
-                    for p in [s.pump.take(), s.wfc.take(), s.blocked_send.take()].into_iter().flatten() {
+                    for p in [s.pump.take(), s.wfc.take()].into_iter().flatten().chain(std::mem::take(&mut s.blocked_sends)) {
                         p.kill().await;
                     }
                     if let Some(m) = s.media.as_mut() {
@@ -2114,8 +2186,10 @@ fn matrix_coords() -> Vec<(Phase, Event, Mode, bool)> {
                     coords.push((p, e, m, false));
                 }
             }
-            if applicable(p, Event::Close, m, true) {
-                coords.push((p, Event::Close, m, true));
+            for e in [Event::Close, Event::DropAll, Event::PeerClose, Event::Blackhole, Event::PeerAbort] {
+                if applicable(p, e, m, true) {
+                    coords.push((p, e, m, true));
+                }
             }
         }
     }
@@ -2159,6 +2233,8 @@ fn matrix(ctx: &Ctx) -> Vec<Cell> {
     let reps = if thorough { 5 } else { 1 };
     let n = coords.len() * reps;
     let trees = ctx.draw("matrix", n, &knobs());
+    // parked senders: 1-4 tasks over 1-3 channels (own stream, so the other knobs keep their values)
+    let sender_trees = ctx.draw("matrix-senders", n, &(1u8..=4, 1u8..=3));
     let mut out = Vec::new();
     for r in 0..reps {
         for (i, (p, e, m, blocked)) in coords.iter().enumerate() {
@@ -2178,13 +2254,28 @@ fn matrix(ctx: &Ctx) -> Vec<Cell> {
                 _ => {}
             }
             let ch = std::env::var("C17_CHANNELS").ok().and_then(|s| s.parse().ok()).unwrap_or(ch);
-            let ch = clamp_channels(ctx, ch, *p, *m, *blocked || e.needs_low_peer());
+            let mut ch = clamp_channels(ctx, ch, *p, *m, *blocked || e.needs_low_peer());
+            let (mut senders, mut sender_channels) = (0u8, 0u8);
+            if *blocked {
+                let (sn, sc) = sender_trees[r * coords.len() + i].current();
+                senders = sn;
+                sender_channels = sc;
+                if *p == Phase::ChannelsOpen && r == 0 {
+                    // boundary shape present in every run: several senders parked on different channels
+                    senders = senders.max(2);
+                    sender_channels = sender_channels.max(2);
+                }
+                sender_channels = sender_channels.min(senders);
+                ch = ch.max(sender_channels);
+            }
             out.push(Cell {
                 phase: *p,
                 event: *e,
                 second: None,
                 mode: *m,
                 blocked: *blocked,
+                senders,
+                sender_channels,
                 subject_offerer,
                 channels: if *m == Mode::WebRtc { ch } else { 0 },
                 negotiated: neg && !e.needs_low_peer(),
@@ -2234,6 +2325,8 @@ fn race_strategy() -> impl Strategy<Value = Cell> {
             second: Some(b),
             mode,
             blocked: false,
+            senders: 0,
+            sender_channels: 0,
             subject_offerer: so || low,
             channels: if mode == Mode::WebRtc { ch } else { 0 },
             negotiated: neg && !low,
